@@ -83,8 +83,16 @@ Definition ok (c : casety) : nat :=
 
 
 def rnd_pts(rng, n):
-    mode = rng.choice(['rand', 'rand', 'int', 'half', 'coincident', 'collinear', 'tiny', 'huge'])
+    mode = rng.choice(['rand', 'rand', 'int', 'half', 'coincident', 'collinear', 'tiny', 'huge', 'pyint', 'npint', 'npscalar'])
     def rnd(s): return complex(rng.uniform(-s, s), rng.uniform(-s, s))
+    if mode == 'pyint':         # plain Python ints: the scalar TYPE of the control points must not matter
+        return [rng.randint(-30, 30) for _ in range(n)], mode
+    if mode == 'npint':
+        import numpy as np
+        return [np.int64(rng.randint(-30, 30)) for _ in range(n)], mode
+    if mode == 'npscalar':
+        import numpy as np
+        return [np.complex128(rnd(50)) if rng.random() < 0.5 else np.float64(rng.uniform(-50, 50)) for _ in range(n)], mode
     if mode == 'rand':
         s = 10 ** rng.uniform(-3, 4); return [rnd(s) for _ in range(n)], mode
     if mode == 'int':
@@ -211,8 +219,8 @@ def run(rep, tier, seed, replay=None):
                 coq_list([cq(z) for z in o_back]), coq_list([cq(z) for z in sl]), coq_list([cq(z) for z in sr]),
                 coq_list([cq(z) for z in hl]), coq_list([cq(z) for z in hr])))
             meta.append((p, t))
-            if len(set(p)) > 1 and t not in (0.0, 1.0):
-                nontriv.add((tuple(p), t))
+            if len(set(complex(z) for z in p)) > 1 and t not in (0.0, 1.0):
+                nontriv.add((tuple(complex(z) for z in p), t))
         fails, errors = common.run_cases(tmp, '', 'casety', OKDEF, cases, shard=90, prefix='bez')
         for e in errors:
             rep.violation('case file failed to evaluate', {'kind': 'cases', 'error': e}, found_input=False, key='cases-error')
